@@ -17,11 +17,13 @@ import SoyVerif.Spec.JsSemRef
 import SoyVerif.Spec.Eval
 import SoyVerif.Model.JsGen
 import SoyVerif.Props.C04
+import SoyVerif.Lemmas.JsGenTop
 
 namespace SoyVerif.Props.C04c
 open SoyVerif SoyVerif.Model SoyVerif.Model.JsGen SoyVerif.Spec.JsSemRef
 open SoyVerif.Spec.JsSem (JsOp exact)
 open SoyVerif.Props.C04 (opOf opSym jsOp_sym)
+open SoyVerif.Lemmas.JsGenSpec (ScopeShape ScopeOk scopeOk_shape)
 
 /-! ## translation -/
 
@@ -130,41 +132,52 @@ def render : JsExpr → List Piece
 
 /-! ## the generator writes `render (toAst sc e)` in every state whose scope is `sc` -/
 
-/-- from every state with scope `sc`, `m` succeeds, writes exactly `ps` and leaves the scope alone -/
+/-- the fields the walk of an expression leaves alone (it moves `node` / `lastNode` and records the
+    functions called, nothing else) -/
+def Same (s s' : St) : Prop :=
+  s'.indent = s.indent ∧ s'.ns = s.ns ∧ s'.bufferName = s.bufferName ∧ s'.autoescape = s.autoescape ∧
+  s'.funcsInFile = s.funcsInFile
+
+theorem Same.refl (s : St) : Same s s := ⟨rfl, rfl, rfl, rfl, rfl⟩
+theorem Same.trans {a b c : St} (h1 : Same a b) (h2 : Same b c) : Same a c :=
+  ⟨h2.1.trans h1.1, h2.2.1.trans h1.2.1, h2.2.2.1.trans h1.2.2.1, h2.2.2.2.1.trans h1.2.2.2.1, h2.2.2.2.2.trans h1.2.2.2.2⟩
+
+/-- from every state with scope `sc`, `m` succeeds, writes exactly `ps` and leaves the scope (and
+    indentation, buffer name, autoescape mode) alone -/
 def RunsSc (sc : Scope) (m : M Unit) (ps : List Piece) : Prop :=
-  ∀ s, s.scope = sc → ∃ s', m s = .ok ((), ps, s') ∧ s'.scope = sc
+  ∀ s, s.scope = sc → ∃ s', m s = .ok ((), ps, s') ∧ s'.scope = sc ∧ Same s s'
 
 theorem RunsSc.seq {sc : Scope} {m k : M Unit} {ps qs : List Piece} (hm : RunsSc sc m ps) (hk : RunsSc sc k qs) :
     RunsSc sc (m >>= fun _ => k) (ps ++ qs) := by
   intro s hs
-  obtain ⟨s1, h1, hs1⟩ := hm s hs
-  obtain ⟨s2, h2, hs2⟩ := hk s1 hs1
-  exact ⟨s2, by simp [Bind.bind, M.bind, h1, h2], hs2⟩
+  obtain ⟨s1, h1, hs1, e1⟩ := hm s hs
+  obtain ⟨s2, h2, hs2, e2⟩ := hk s1 hs1
+  exact ⟨s2, by simp [Bind.bind, M.bind, h1, h2], hs2, e1.trans e2⟩
 
-theorem RunsSc.fx {sc : Scope} (t : Bytes) : RunsSc sc (fx t) [.fixed t] := fun s hs => ⟨s, rfl, hs⟩
-theorem RunsSc.emit {sc : Scope} (p : Piece) : RunsSc sc (emit p) [p] := fun s hs => ⟨s, rfl, hs⟩
-theorem RunsSc.emits {sc : Scope} (ps : List Piece) : RunsSc sc (emits ps) ps := fun s hs => ⟨s, rfl, hs⟩
-theorem RunsSc.atOther {sc : Scope} : RunsSc sc atOther [] := fun _ hs => ⟨_, rfl, hs⟩
-theorem RunsSc.pure {sc : Scope} : RunsSc sc (pure ()) [] := fun s hs => ⟨s, rfl, hs⟩
+theorem RunsSc.fx {sc : Scope} (t : Bytes) : RunsSc sc (fx t) [.fixed t] := fun s hs => ⟨s, rfl, hs, Same.refl s⟩
+theorem RunsSc.emit {sc : Scope} (p : Piece) : RunsSc sc (emit p) [p] := fun s hs => ⟨s, rfl, hs, Same.refl s⟩
+theorem RunsSc.emits {sc : Scope} (ps : List Piece) : RunsSc sc (emits ps) ps := fun s hs => ⟨s, rfl, hs, Same.refl s⟩
+theorem RunsSc.atOther {sc : Scope} : RunsSc sc atOther [] := fun _ hs => ⟨_, rfl, hs, rfl, rfl, rfl, rfl, rfl⟩
+theorem RunsSc.pure {sc : Scope} : RunsSc sc (pure ()) [] := fun s hs => ⟨s, rfl, hs, Same.refl s⟩
 theorem RunsSc.cast {sc : Scope} {m : M Unit} {ps qs : List Piece} (h : RunsSc sc m ps) (e : ps = qs) : RunsSc sc m qs := e ▸ h
 
 theorem RunsSc.whenAddCalled {sc : Scope} (c : Bool) (k : Bytes) (v : List Piece) : RunsSc sc (whenM c (addCalled k v)) [] := by
   intro s hs
   cases c
-  · exact ⟨s, rfl, hs⟩
-  · exact ⟨_, rfl, hs⟩
+  · exact ⟨s, rfl, hs, Same.refl s⟩
+  · exact ⟨_, rfl, hs, rfl, rfl, rfl, rfl, rfl⟩
 
 theorem RunsSc.whenFx {sc : Scope} (c : Bool) (t : Bytes) : RunsSc sc (whenM c (JsGen.fx t)) (if c then [.fixed t] else []) := by
   intro s hs
   cases c
-  · exact ⟨s, rfl, hs⟩
-  · exact ⟨s, rfl, hs⟩
+  · exact ⟨s, rfl, hs, Same.refl s⟩
+  · exact ⟨s, rfl, hs, Same.refl s⟩
 
 theorem RunsSc.bindScope {sc : Scope} {k : Scope → M Unit} {ps : List Piece} (h : RunsSc sc (k sc) ps) :
     RunsSc sc (getScope >>= k) ps := by
   intro s hs
-  obtain ⟨s', h', hs'⟩ := h s hs
-  refine ⟨s', ?_, hs'⟩
+  obtain ⟨s', h', hs', e'⟩ := h s hs
+  refine ⟨s', ?_, hs', e'⟩
   simp only [Bind.bind, M.bind, getScope, hs, h', List.nil_append]
 
 section
@@ -1430,10 +1443,6 @@ theorem jsname_inj {k k' use use' : Bytes} {m m' : Nat} (hk : k.contains 36 = fa
     simpa [Scope.jsname, List.append_assoc] using h
   rw [← h1, ← h2, h']
 
-/-- the generator's scope maps every Soy name to a name generated FOR IT -/
-def ScopeShape (sc : Scope) : Prop :=
-  ∀ k g, k.contains 36 = false → sc.lookup k = some g → ∃ use m, g = Scope.jsname k use m
-
 /-- FRESHNESS: under `ScopeShape`, the local generated for `x` is not the local of another variable -/
 theorem fresh_of_shape (sc : Scope) (hs : ScopeShape sc) (x use : Bytes) (n : Nat) (hx : x.contains 36 = false) :
     ∀ k g', k ≠ x → k.contains 36 = false → sc.lookup k = some g' → g' ≠ Scope.jsname x use n := by
@@ -1541,6 +1550,53 @@ example : (toAst sampleScope sampleExpr).map (eval sampleJEnv) = some (.val (.nu
 example : (toAst ⟨[[]], 0⟩ (.dataRef 0 b!"p" (.cons (.key 0 true b!"a") .nil))).map
     (eval { optData := [(b!"p", .null)], ijData := none, locals := [] }) = some (.val .null) := rfl
 
+/-! ## `ScopeShape` along a whole walk
+
+  The state invariant of the safety induction (Lemmas/JsGenSafe: `J b s` = the scope is `ScopeOk`,
+  the import map is well-shaped, `bufferName = b`) now contains, frame by frame, that every binding
+  of a Soy name holds a name generated FOR it (`NameFor`, Lemmas/JsGenSpec); `makevar`, `genname` +
+  `bind`, `pushForRange`, `pushForEach`, `push` and `pop` preserve it (`makevar_ok` … `pop_ok`).
+  `Spec P (J b) (J b') m Q` threads the invariant through every `>>=`, so EVERY state in which a
+  sub-walk of the generator starts or ends satisfies it; the theorems below read that off. -/
+
+open SoyVerif.Lemmas.JsGenSafe (J CmdWN BlockWN ExprWN s_walkCmd s_walkBlock s_walkExpr s_getScope POk)
+open SoyVerif.Lemmas.JsGenSpec (IsIdent Spec)
+open SoyVerif.Lemmas.JsGenTop (FileWN top_visitSoyFile)
+
+/-- FULL (`walk_scopeShape`, commands): walking any well-named command or block from a state that
+    satisfies the invariant ends in a state whose scope satisfies `ScopeShape` -/
+theorem walk_scopeShape (sk : List Bytes → List Bytes) (o : Options) (c : Cmd) (hc : CmdWN c) (b : Bytes) (hb : IsIdent b)
+    (s s' : St) (ps : List Piece) (hs : J b s) (h : walkCmd sk o c s = .ok ((), ps, s')) : ScopeShape s'.scope :=
+  scopeOk_shape ((s_walkCmd sk o c hc b hb s () ps s' hs h).2.1.1.1)
+
+theorem walkBlock_scopeShape (sk : List Bytes → List Bytes) (o : Options) (blk : Block) (hc : BlockWN blk) (b : Bytes)
+    (hb : IsIdent b) (s s' : St) (ps : List Piece) (hs : J b s) (h : walkBlock sk o blk s = .ok ((), ps, s')) :
+    ScopeShape s'.scope :=
+  scopeOk_shape ((s_walkBlock sk o blk hc b hb s () ps s' hs h).2.1.1.1)
+
+/-- … the scope an expression translation READS (every `getScope` of the generator) satisfies it -/
+theorem getScope_shape (b : Bytes) : Spec POk (J b) (J b) getScope ScopeShape :=
+  (s_getScope (b := b)).post (fun _ h => scopeOk_shape h)
+
+/-- … and so does the scope after a whole well-named file, from the initial state of `Write` -/
+theorem file_scopeShape (sk : List Bytes → List Bytes) (o : Options) (f : SoyFile) (hf : FileWN f)
+    (s' : St) (ps : List Piece) (h : visitSoyFile sk o f initState = .ok ((), ps, s')) : ScopeShape s'.scope := by
+  have hinit : SoyVerif.Lemmas.JsGenSafe.Inv initState := by
+    constructor
+    · intro fr hfr
+      simp only [initState, List.mem_singleton] at hfr
+      subst hfr
+      exact SoyVerif.Lemmas.JsGenSpec.frameOk_nil
+    · intro kv hkv
+      cases hkv
+  exact scopeOk_shape ((top_visitSoyFile sk o f hf initState () ps s' hinit h).2.2.1)
+
+/-- FRESHNESS at every point of generation: in any state satisfying the invariant, the local
+    generated for a Soy name `x` differs from the local of every other visible Soy variable -/
+theorem fresh_at (b : Bytes) (s : St) (hs : J b s) (x use : Bytes) (n : Nat) (hx : x.contains 36 = false) :
+    ∀ k g', k ≠ x → k.contains 36 = false → s.scope.lookup k = some g' → g' ≠ Scope.jsname x use n :=
+  fresh_of_shape s.scope (scopeOk_shape hs.1.1) x use n hx
+
 /-! ## what remains unproved (C04, expression and command level)
 
   * `$ij` references, accesses by a computed key `$x[$e]`, a null-safe access that is not the last
@@ -1553,8 +1609,6 @@ example : (toAst ⟨[[]], 0⟩ (.dataRef 0 b!"p" (.cons (.key 0 true b!"a") .nil
   * `range`-loops in `envRel_*` (only `{let}` and `{foreach}` are instantiated; `{for … in range}` is
     the same `envRel_bind` with `pushForRange`), let-CONTENT variables (their value is the text the
     block rendered: command level);
-  * the invariant `ScopeShape` is shown to be kept by `makevar` only (`makevar_shape`); that every
-    scope the generator builds while walking a well-named file satisfies it is not proved;
   * every command (control flow, calls, messages) and the parse of the emitted text: decided by
     execution (C04exec), not by a theorem. -/
 
